@@ -15,13 +15,15 @@ def view(prog, key):
     return fv
 
 
-def view_deep(prog, key):
-    """FnView of `key` with directly called closures and Option/Result combinators expanded in place (analysis/inline.py)."""
-    fv = _fv_cache.get((id(prog), key, "deep"))
+def view_deep(prog, key, only=None):
+    """FnView of `key` with directly called closures and Option/Result combinators expanded in place (analysis/inline.py);
+    only=("call",) expands the directly called closures and nothing else."""
+    ck = (id(prog), key, "deep", only)
+    fv = _fv_cache.get(ck)
     if fv is None:
         from .inline import deep_splice
-        fv = FnView(prog, key, f=deep_splice(prog, prog.fn(key)))
-        _fv_cache[(id(prog), key, "deep")] = fv
+        fv = FnView(prog, key, f=deep_splice(prog, prog.fn(key), only=only))
+        _fv_cache[ck] = fv
     return fv
 
 
